@@ -2193,3 +2193,109 @@ func retryLaterSurvivesAdapters(c *Ctx, rule string) {
 	}
 	c.AtLeast(rule, "plain-retriable wraps of HTTP errors in adapters", n, 4)
 }
+
+// zeroDelayHonoured (C15): lfs.transfer.maxretrydelay=0 is a documented setting ("use zero to disable delays
+// between retries") and part of the property's configurations; the waits the queue computes are clamped to the
+// manifest's value, so the configured 0 has to arrive there: the configuration value is accepted under a test that
+// 0 passes, and no later "fall back to the default" assignment runs for a value of 0.
+func zeroDelayHonoured(c *Ctx, rule string) {
+	p := c.P
+	fn := p.Fn("tq", "newConcreteManifest")
+	if fn == nil {
+		c.Missing(rule, "tq.newConcreteManifest", "not found")
+		return
+	}
+	isDelayField := func(addr ssa.Value) bool {
+		fa, ok := addr.(*ssa.FieldAddr)
+		if !ok {
+			return false
+		}
+		tn, f := fieldAddrName(fa)
+		return tn == "tq.concreteManifest" && f == "maxRetryDelay"
+	}
+	var cfgStore *ssa.Store
+	var others []*ssa.Store
+	for _, b := range fn.Blocks {
+		for _, in := range b.Instrs {
+			st, ok := in.(*ssa.Store)
+			if !ok || !isDelayField(st.Addr) {
+				continue
+			}
+			fromCfg := false
+			if cc, _, ok := CallResult(st.Val); ok && strings.HasSuffix(CalleeName(cc.Common()), ".Int") {
+				if s, ok := ConstString(CallArgs(cc.Common())[1]); ok && strings.EqualFold(s, "lfs.transfer.maxretrydelay") {
+					fromCfg = true
+				}
+			}
+			if fromCfg {
+				cfgStore = st
+			} else {
+				others = append(others, st)
+			}
+		}
+	}
+	if cfgStore == nil {
+		c.Missing(rule, "newConcreteManifest: maxRetryDelay = <lfs.transfer.maxretrydelay>", "not found")
+		return
+	}
+	// accepted under a test that 0 passes
+	okAccept := true
+	for _, dc := range decidingConds(fn, cfgStore.Block()) {
+		op, x, y, ok := BinCmp(dc.Cond)
+		if !ok || x != cfgStore.Val {
+			continue
+		}
+		k, isK := ConstInt(y)
+		if !isK {
+			continue
+		}
+		holdsForZero := false
+		switch op {
+		case token.GTR:
+			holdsForZero = 0 > k
+		case token.GEQ:
+			holdsForZero = 0 >= k
+		case token.NEQ:
+			holdsForZero = 0 != k
+		case token.LSS:
+			holdsForZero = 0 < k
+		case token.LEQ:
+			holdsForZero = 0 <= k
+		case token.EQL:
+			holdsForZero = 0 == k
+		}
+		if holdsForZero != dc.Want {
+			okAccept = false
+		}
+	}
+	c.Check(okAccept, rule, "max-retry-delay:zero-is-accepted", p.InstrPos(cfgStore), "the configured value is taken under a test that 0 passes", "a configured lfs.transfer.maxretrydelay of 0 is not taken over into the manifest")
+	// no fall-back to the default for 0
+	pass := PassEdges(fn, func(cond ssa.Value) (bool, bool) {
+		op, x, y, ok := BinCmp(cond)
+		if !ok || !IsLoadOfField(x, "tq.concreteManifest", "maxRetryDelay") {
+			return false, false
+		}
+		k, isK := ConstInt(y)
+		if !isK {
+			return false, false
+		}
+		switch {
+		case op == token.LSS && k <= 0, op == token.LEQ && k < 0:
+			return true, true
+		case op == token.GEQ && k <= 0, op == token.GTR && k < 0:
+			return false, true
+		}
+		return false, false
+	})
+	good, where := true, ""
+	for _, st := range others {
+		if !after(cfgStore, st) {
+			continue
+		}
+		if ok, w := Guarded(cfgStore.Block(), st, pass, nil); !ok {
+			good, where = false, p.InstrPos(st)+" via "+w
+		}
+	}
+	c.Check(good, rule, "max-retry-delay:zero-is-kept", p.InstrPos(cfgStore), "after the configuration was read the default replaces only a negative value",
+		"the manifest replaces a configured maximum retry delay of 0 by the default ("+where+"): with lfs.transfer.maxretrydelay=0 (documented: no delays between retries) retries still back off up to ten seconds, beyond the configured maximum")
+}
